@@ -475,6 +475,16 @@ def check_case(case):
             m.slim_optimize()
             if m.solver.status != "optimal":
                 results = results[:1]
+        if len(results) == 2 and results[0] != results[1] and name in ("find_essential_genes", "find_essential_reactions") \
+                and results[0][0] is None and results[1][0] is None and results[0][1] is not None and results[1][1] is not None:
+            # membership of a knock-out whose growth equals the threshold (1 % of the optimum) up to rounding is not defined
+            from cobra.flux_analysis import single_gene_deletion, single_reaction_deletion
+            df = (single_gene_deletion if name == "find_essential_genes" else single_reaction_deletion)(m, processes=1)
+            thr = m.slim_optimize() * 1e-2
+            growth = {",".join(sorted(row["ids"])): float(row["growth"]) for _, row in df.iterrows()}
+            differing = set(results[0][1]) ^ set(results[1][1])
+            if all(k in growth and abs(growth[k] - thr) <= 1e-6 * (1 + abs(thr)) for k in differing):
+                results = results[:1]
         if len(results) == 2 and results[0] != results[1]:
             fails.append(f"{name}({args}): two calls on the same model gave different results: {json.dumps(results[0], default=str)[:200]} vs "
                          f"{json.dumps(results[1], default=str)[:200]}")
